@@ -163,6 +163,10 @@ class Interp:
             self.depth -= 1
             if not top:
                 self.ctx.cur_line = saved_line
+            else:
+                # final local environment of the function under verification (witness lemmas of a contract may
+                # refer to the ghosts of arrays held in named locals)
+                self.top_env = env
         return ret
 
     # ================================================================ statements
